@@ -65,6 +65,7 @@ def build(extra_mods=(), force_assumed=()):
     mods = list(CORE_MODS) + list(extra_mods)
     insertion_only = True
     lost_all = []
+    d1 = []
     extracted = {}
     all_twins = []
     for m in mods:
@@ -74,7 +75,8 @@ def build(extra_mods=(), force_assumed=()):
             src, twins = extract_module(path, lg)
             for t in twins:
                 t['module'] = m
-            all_twins += twins
+            d1 += [t for t in twins if 'd1_type' in t]
+            all_twins += [t for t in twins if 'd1_type' not in t]
             extracted[m] = src
         except Unsupported as e:
             raise Undecided('extraction: %s: %s' % (m, e))
@@ -109,7 +111,8 @@ def build(extra_mods=(), force_assumed=()):
         globs = ''.join('use crate::%s::*;\n' % o for o in mods if o != m)
         chunks.append('pub mod %s {\nuse vstd::prelude::*;\nuse crate::iso::*;\n%sverus! {\n%s\n%s\n}\n} // @endmod\n' % (m, globs, spliced, ghost))
     chunks[ISO_SLOT] = 'pub mod iso {\nuse vstd::prelude::*;\nuse crate::*;\n%sverus! {\n%s\n}\n}\n' % (''.join('use crate::%s::*;\n' % o for o in mods), iso)
-    chunks.append('verus! {\n' + open(os.path.join(VERIF, 'spec', 'prelude.vrs')).read() + '\n}\nfn main() {}\n')
+    d1_text = ''.join('pub assume_specification [<crate::%s::%s as Clone>::clone] (q: &crate::%s::%s) -> (r: crate::%s::%s)\n    ensures r == *q;\n' % (t['module'], t['d1_type'], t['module'], t['d1_type'], t['module'], t['d1_type']) for t in d1)
+    chunks.append('verus! {\n' + d1_text + open(os.path.join(VERIF, 'spec', 'prelude.vrs')).read() + '\n}\nfn main() {}\n')
     text = ''.join(chunks)
     if not insertion_only:
         raise Undecided('internal: splice was not insertion-only')
